@@ -833,6 +833,11 @@ FAMILY_RULES = [
 ]
 
 
+# one clause id per rule, so that the self-test can reach every family
+RULE_SAMPLE_KEYS = ['C19.frames.iff', 'C19.mult.table', 'C10.top.manager_choice', 'C20.render.text', 'C11.local.matcher.text', 'C10.dist.printer.text',
+                    'C12.refusal.iff', 'SAFETY.undecided', 'C04.format.text']
+
+
 def _has(sub):
     return lambda got: got[0] == 'OK' and sub in got[1]
 
